@@ -630,11 +630,25 @@ def std_oracle(interp, env, f, args, t, bb, path):
     name = f.get("name")
     a0 = args[0] if args else TOP
 
-    def deref(v):
-        if isinstance(v, Ref):
-            return interp.read_place(env, [v.local, v.proj])
+    def deref(v, n=0):
+        while n < 6:
+            n += 1
+            if isinstance(v, Ref):
+                v = interp.read_place(env, [v.local, v.proj])
+            elif isinstance(v, HRef):
+                items = interp.mstate.get("heap", {}).get(v.vid, ())
+                v = items[v.idx] if v.idx < len(items) else TOP
+            else:
+                break
         return v
 
+    if key.startswith("core::ops::arith::") and name in ("add", "sub", "mul", "div", "rem", "neg"):
+        xs = [deref(a) for a in args]
+        if all(isinstance(x, (int, float)) and not isinstance(x, bool) for x in xs):
+            if name == "neg":
+                return -xs[0]
+            return interp.binop({"add": "Add", "sub": "Sub", "mul": "Mul", "div": "Div", "rem": "Rem"}[name], xs[0], xs[1])
+        return TOP
     if key == "core::ops::try_trait::Try::branch":
         if isinstance(a0, Agg) and a0.name == "core::result::Result":
             if a0.variant == "Ok":
@@ -708,6 +722,12 @@ def std_oracle(interp, env, f, args, t, bb, path):
             return NONE
         if name in ("or", "or_else") and issome:
             return a0
+    if key in ("core::cmp::PartialOrd::partial_cmp",) and len(args) == 2:
+        a, b = deref(a0), deref(args[1])
+        if isinstance(a, (int, float)) and not isinstance(a, bool) and isinstance(b, (int, float)) and not isinstance(b, bool):
+            if a != a or b != b:
+                return NONE
+            return some(Agg("adt", "core::cmp::Ordering", "Less" if a < b else "Greater" if a > b else "Equal", []))
     if f.get("self_ty") in ("f64", "f32") or key.startswith("core::f64::") or key.startswith("std::f64::") or key.startswith("core::f32::"):
         x = deref(a0)
         if isinstance(x, (int, float)) and not isinstance(x, bool):
